@@ -47,8 +47,6 @@ m = {
     "notes": "Exit codes of ./check: 0 held (KNOWN-FINDING lines possible), 1 VIOLATION, 2 build/watchdog/divergence/internal. "
              "Known findings: known_findings.json. Replays: replays/<id>/ (regenerated), findings/ (committed copies).",
 }
-if not na:
-    del m["not_applicable"]
 with open(os.path.join(V, "MANIFEST.json"), "w") as f:
     json.dump(m, f, indent=1)
     f.write("\n")
